@@ -1,4 +1,5 @@
 import PromModel.Tsdb.CompactionProtocol
+import PromModel.Tsdb.OooBounds
 /-
   Suite `race` (C06). One case = one real tsdb.DB with a fixed data set, one or more maintenance runs
   (db.Compact / db.CompactOOOHead / db.CompactHead) parked at every protocol point, and queriers opened,
@@ -11,6 +12,11 @@ import PromModel.Tsdb.CompactionProtocol
     step <point>|blocked:<which>|done:<err>|nomaint [<Bk>] new=<Bk:mint:maxt:i|o:parents,…|-> hmin=<h> omin=<o>
     open <q> <mint> <maxt> ; read <q> ; close <q>
 
+  The outputs of `step` carry omin/omax = Head.MinOOOTime()/MaxOOOTime(). The model does NOT take the
+  new lower bound of a GC step from the observation: it recomputes it (`OooBounds.recount` over the OOO
+  chunks of every series, built by `OooBounds.insert` from the puts in arrival order, then
+  `OooBounds.published` with the head's maximum and the OOO window) — so the printed omin is a prediction.
+
   model: replays the observed points through `CompactionProtocol.mstep` (trace validation: an observed
          point whose step is not enabled in the model — e.g. the code went past a wait that the model says
          must block — yields `rejected …`), prints the model's protocol state after each step (compared
@@ -18,7 +24,9 @@ import PromModel.Tsdb.CompactionProtocol
          head part and its block list.
   judge: independent of the model. The data set is fixed before maintenance starts, so every `read`,
          whatever the position, must return exactly the committed samples of its range, each once; the
-         maintenance thread may only be blocked while a query is open, and must finish.
+         maintenance thread may only be blocked while a query is open, and must finish; and at every
+         position the published out-of-order bounds [omin, omax] contain every out-of-order sample that is
+         still only in the head (before the first out-of-order GC: all of them).
 -/
 namespace Prom.CompactionProtocol
 
@@ -57,7 +65,15 @@ structure Obs where
   news : List NewBlk := []
   hmin : Int := 0
   omin : Int := 0
+  /-- not observed, filled in by the model: `recount` over the OOO chunks in the head, head maximum, OOO window -/
+  rc : Int := 0
+  hmax : Int := 0
+  win : Int := 0
 deriving Repr, Inhabited
+
+/-- Head.minOOOTime after a GC that leaves chunks with recount `rc` (`Head.MaxTime()` undefined = no clamp). -/
+def newOLo (o : Obs) (rc : Int) : Int :=
+  if o.hmax = -9223372036854775808 then rc else OooBounds.published o.hmax o.win rc
 
 def parseObs (fs : List String) : Obs :=
   -- fs = tokens after "step"
@@ -126,13 +142,14 @@ def nextAct (σ : State) (o : Obs) : Except String MAct :=
   | .hTimeStored _ => .ok .hSetFlag
   | .hFlagSet _ => .ok .hWait
   | .hWaited _ => .ok .hSetMin
-  | .hMinSet _ => .ok (.hGc o.hmin o.omin)
+  | .hMinSet _ => .ok (.hGc o.hmin (newOLo o o.rc))
   | .hGcDone _ => .ok .hClear
   | .oSnapped _ => .ok (.oWrite ((o.news.filter fun b => b.ooo && b.parents.isEmpty).map fun b => (b.id, b.lo, b.hi)))
   | .oWritten .. => .ok .oSwap
   | .oSwapped _ => .ok .oSetLastGC
   | .oLastGC _ => .ok .oWait
-  | .oWaited _ => .ok (.oGc o.hmin o.omin)
+  -- the data set is fixed: the snapshot covers every OOO chunk, none survives truncateOOO
+  | .oWaited _ => .ok (.oGc o.hmin (newOLo o OooBounds.top))
   | .cWritten .. => .ok .cSwap
   | .deleting ps none =>
     match o.blk with
@@ -180,6 +197,13 @@ structure Sim where
   known : List Nat := []
   begun : Bool := false
   maintOn : Bool := false
+  /-- OutOfOrderTimeWindow, OutOfOrderCapMax -/
+  win : Int := 0
+  cap : Nat := 32
+  /-- Head.MaxTime(): the largest in-order timestamp -/
+  hmax : Int := -9223372036854775808
+  /-- the OOO chunks of every series that are in the head -/
+  ooo : List (Nat × OooBounds.OooSeries) := []
 deriving Inhabited
 
 def maxI : Int := 9223372036854775807
@@ -207,7 +231,7 @@ def b2n (b : Bool) : Nat := if b then 1 else 0
 def summary (m : Sim) : String :=
   let σ := m.σ
   s!"hmin={σ.headMin} flag={b2n σ.inProcess} trunc={σ.truncTime} lastgc={b2n (σ.lastGC != 0)} " ++
-  s!"ooogc={b2n (σ.oooGc != 0)} omin={σ.oooLo} loaded={showIds (blockIds σ)} " ++
+  s!"ooogc={b2n (σ.oooGc != 0)} omin={σ.oooLo} omax={σ.oooHi} loaded={showIds (blockIds σ)} " ++
   s!"disk={showIds (m.known.filter fun i => !σ.removed.contains i)}"
 
 def sampleLe (a b : Sample) : Bool := a.ser < b.ser || (a.ser == b.ser && (a.t < b.t || (a.t == b.t && a.v ≤ b.v)))
@@ -230,14 +254,25 @@ def openReader (σ : State) (lo hi : Int) : State × Nat :=
   let σ := readerActs.foldl (fun σ a => (step σ (.reader i a)).getD σ) σ
   (σ, i)
 
+def oooInsert (cap : Nat) (l : List (Nat × OooBounds.OooSeries)) (ser : Nat) (t : Int) :
+    List (Nat × OooBounds.OooSeries) :=
+  match l with
+  | [] => [(ser, OooBounds.insert cap {} t)]
+  | (k, s) :: rest => if k = ser then (k, OooBounds.insert cap s t) :: rest else (k, s) :: oooInsert cap rest ser t
+
 def modelOp (m : Sim) (op : String) : Sim × String :=
   match toks op with
-  | "cfg" :: _ => if m.begun then (m, "already") else ({ m with σ := emptyState, begun := true }, "ok")
+  | "cfg" :: args =>
+    if m.begun then (m, "already") else
+    let win := ((args.drop 1).head?.bind String.toInt?).getD 0
+    let cap := ((args.drop 3).head?.bind String.toNat?).getD 32
+    ({ m with σ := emptyState, begun := true, win := win, cap := if cap = 0 then 32 else cap }, "ok")
   | ["put", s, t, v, o] =>
     if !m.begun then (m, "nodb") else
     match s.toNat?, t.toInt?, v.toInt? with
     | some s, some t, some v =>
       let smp : Sample := { ser := s, t := t, v := v, ooo := o = "1", ref := if o = "1" then 1 else 0 }
+      let m := if smp.ooo then { m with ooo := oooInsert m.cap m.ooo s t } else { m with hmax := max m.hmax t }
       ({ m with σ := addSample m.σ smp }, "ok")
     | _, _, _ => (m, "bad-op")
   | "maint" :: _ =>
@@ -245,7 +280,7 @@ def modelOp (m : Sim) (op : String) : Sim × String :=
     if m.maintOn then (m, "busy") else ({ m with maintOn := true }, "started")
   | "step" :: fs =>
     if !m.begun then (m, "nodb") else
-    let o := parseObs fs
+    let o := { parseObs fs with rc := OooBounds.recount (m.ooo.map (·.2)), hmax := m.hmax, win := m.win }
     let m := { m with known := m.known ++ (o.news.map (·.id)).filter fun i => !m.known.contains i }
     if o.point = "nomaint" then (m, summary m) else
     -- reloadBlocks marks the parents of every loaded block deletable, whether or not they still exist:
@@ -256,7 +291,8 @@ def modelOp (m : Sim) (op : String) : Sim × String :=
     if !m.maintOn then (m, "rejected step-without-maintenance") else
     match advance 40 m.σ o with
     | .ok σ' =>
-      let m := { m with σ := σ', maintOn := if o.point = "done" then false else m.maintOn }
+      let m := { m with σ := σ', maintOn := if o.point = "done" then false else m.maintOn,
+                        ooo := if σ'.oooGc != m.σ.oooGc then [] else m.ooo }
       (m, summary m)
     | .error e => (m, s!"rejected {e}")
   | ["open", q, lo, hi] =>
@@ -335,6 +371,19 @@ structure JSt where
   pos : String := "start"
   maintOn : Bool := false
   finishedOk : Bool := true
+  /-- the out-of-order samples are still in the head (no out-of-order GC yet) -/
+  oooLive : Bool := true
+  sawSnap : Bool := false
+
+/-- The published OOO bounds must contain every out-of-order sample that is only in the head: `none` = holds. -/
+def boundsHold (data : List Sample) (out : String) : Option String :=
+  let fs := toks out
+  match (field? fs "omin").bind String.toInt?, (field? fs "omax").bind String.toInt? with
+  | some lo, some hi =>
+    match data.find? (fun s => s.ooo && (decide (s.t < lo) || decide (hi < s.t))) with
+    | some s => some s!"s{s.ser}@{s.t} omin={lo} omax={hi}"
+    | none => none
+  | _, _ => none
 
 def judge (ops outs : List String) : String :=
   let rec go (st : JSt) : List String → List String → String
@@ -352,9 +401,16 @@ def judge (ops outs : List String) : String :=
           s!"violation maintenance-blocked-without-open-query at={st.pos} {ev}"
         else if ev = "stuck" then s!"violation maintenance-stuck at={st.pos}"
         else if ev.startsWith "done" then
-          if ev = "done:ok" then go { st with maintOn := false, pos := "done" } ops outs
+          if ev = "done:ok" then
+            go { st with maintOn := false, pos := "done", oooLive := st.oooLive && !st.sawSnap } ops outs
           else s!"violation maintenance-failed {ev}"
-        else go { st with pos := if ev.startsWith "blocked" then st.pos else ev } ops outs
+        else
+          let st := { st with sawSnap := st.sawSnap || ev = "ooo.snapshot" }
+          match (if st.oooLive && ev != "gc.done.truncateOOO" then boundsHold st.data out else none) with
+          | some why => s!"violation ooo-bounds-exclude-head-sample {why} at={ev}"
+          | none =>
+            go { st with pos := if ev.startsWith "blocked" then st.pos else ev,
+                         oooLive := st.oooLive && ev != "gc.done.truncateOOO" } ops outs
       | ["open", q, lo, hi] =>
         match lo.toInt?, hi.toInt? with
         | some lo, some hi =>
